@@ -86,6 +86,10 @@ def run(run):
                 if c[0] == "call" and re.search(r"char::methods::<impl char>::is_whitespace$", c[1]) and taken == 0:
                     if strip(c[2][0]) == strip(ch_expr):
                         ok = True
+            if not ok:
+                # the test sits in a helper (`if !Self::is_blank(ch)`): decided through the helper's boolean function
+                from ..common import blank_guard_atoms
+                ok = "ws" in blank_guard_atoms(prog, cb_from, bid)
             if ok:
                 run.ok("C17.W1", "cell insert guarded by !ch.is_whitespace() on the inserted char", where(t),
                        "is_whitespace covers space, tab, CR, LF (%d code points)" % WHITESPACE.count())
